@@ -215,8 +215,12 @@ class Arrow:
         if isinstance(key, slice):
             if key.step == -1:
                 boxes = [box[::-1] for box in self.boxes[key]]
-                return self.upgrade(
-                    Arrow(self.cod, self.dom, boxes, _scan=False))
+                if not boxes:
+                    start = key.indices(len(self))[0]
+                    return Id(self.boxes[start].cod if start >= 0
+                              else self.dom)
+                return self.upgrade(Arrow(
+                    boxes[0].dom, boxes[-1].cod, boxes, _scan=False))
             if (key.step or 1) != 1:
                 raise IndexError
             boxes = self.boxes[key]
